@@ -31,6 +31,7 @@ class Opts:
         self.min_ops = 3
         self.max_ops = 30
         self.nested = True          # nested targets / reads
+        self.proj = True            # (term).real / .imag, divmod(t, u)[i]: item / attribute of a computed value
         self.whole = True           # definitions that read a container as a whole: F['tot'](container)
         self.load = True            # Manager.load of a generated dump (repeated targets, overwrite on / off); needs maint
         self.ft_sinks = True        # function tasks with an empty target set
@@ -132,7 +133,7 @@ class Gen:
         weighted = cands + [k for k in cands if k in produced] * 3     # favour chains
         tg = G.TermGen([W.ast_loc(k) for k in weighted], [], fn, comp, lits=hist_numbers, ops=ops,
                        builtins=builtins, unary=["-", "+"], allow_eq=self.o.eq,
-                       allow_divmod=self.o.divmod, comp_one_in=self.o.comp_one_in, cont_locs=conts)
+                       allow_divmod=self.o.divmod, comp_one_in=self.o.comp_one_in, cont_locs=conts, proj=self.o.proj)
         d = self.draw(st.integers(1, self.o.depth))
         ast = tg.term(self.draw, d)
         if self.o.risky_ops and self.draw(st.integers(0, 9)) == 0:
